@@ -407,7 +407,7 @@ fn descendant_uids(p: &Plan, v: &mut Vec<u32>) {
         Item::Sys(s) => v.push(s.uid),
         Item::Batch(b) => v.push(b.uid),
         Item::Tl(t) => v.push(t.uid),
-        Item::Barrier => {}
+        Item::Barrier | Item::Failed(_) => {}
     });
 }
 
